@@ -93,7 +93,7 @@ def coq_case(sc):
 PREAMBLE = "From H2V Require Import Base.Tac Base.Bytes Model.Counts.\nLocal Open Scope Z_scope.\n"
 
 
-def correspond_counts(rep, tier, seed, profiles=("queue", "limits", "queue", "reset", "mixed", "chaos")):
+def correspond_counts(rep, tier, seed, profiles=("queue", "limits", "pushlimit", "queue", "reset", "mixed", "chaos")):
     per = 50 if tier == "quick" else 1200
     steps = 100 if tier == "quick" else 150
     all_cases, all_scs, hist = [], [], {}
@@ -169,6 +169,13 @@ def snapshot_oracle(sc):
                     "counted_local": loc, "num_recv": c["num_recv_streams"], "counted_remote": rem}
         if c["max_recv_streams"] >= 0 and c["num_recv_streams"] > c["max_recv_streams"]:
             return {"step": st["i"], "why": "more peer-initiated streams counted than advertised", "num_recv": c["num_recv_streams"], "max": c["max_recv_streams"]}
+        # independent of the is_counted flag: the peer-initiated streams that are ACTIVE (opened by HEADERS, not reserved,
+        # not closed) -- requests on a server, pushed responses on a client -- never exceed the advertised limit
+        if c["max_recv_streams"] >= 0:
+            active = [s["id"] for s in sn["streams"] if ((s["id"] % 2 == 1) == client) is False and s["id"] != 0
+                      and not s["state"].startswith(("Closed", "Idle", "Reserved"))]
+            if len(active) > c["max_recv_streams"]:
+                return {"step": st["i"], "why": "more concurrently active peer-initiated streams than advertised", "active": active, "max": c["max_recv_streams"]}
     return None
 
 
